@@ -247,6 +247,100 @@ pub fn wyckoff_crystal(row: &Row, general_idx: usize, rng: &mut Rng) -> Option<C
     None
 }
 
+/// Like `wyckoff_crystal`, but one free parameter of the position is placed close to a special value, so that the orbit
+/// comes within `delta` of a *more special* position (where the subspace meets those of other letters): the atoms of the
+/// orbit then cluster in groups whose mutual distance `d` is validated to lie in [10 symprec, 1.8 sqrt(symprec)] - far
+/// enough apart (in units of symprec) for the structure and the letter to stay unambiguous, close enough that a tolerance
+/// applied on the wrong scale would put the site on another letter's subspace.  Premises validated independently of moyo:
+/// orbit size = tabulated multiplicity, cluster distance in the window, every other pair >= 0.45 A apart, no approximate
+/// symmetry beyond the generating group within min(0.2, d/4).
+pub fn wyckoff_crystal_near(row: &Row, general_idx: usize, rng: &mut Rng, sp: f64) -> Option<Crystal> {
+    let ops = conv_ops(row.hall);
+    let nops = ops.len();
+    let coords = row.coords.clone();
+    let space = match catch(move || {
+        let s = WyckoffPositionSpace::new(&coords);
+        (s.linear, s.origin)
+    }) {
+        Ok(s) => s,
+        Err(_) => return None,
+    };
+    let lin = space.0.map(|e| e as f64);
+    let free: Vec<usize> = (0..3).filter(|&j| lin.column(j).iter().any(|e| *e != 0.0)).collect();
+    if free.is_empty() {
+        return None;
+    }
+    let special = [0.0, 0.5, 0.25, 0.75, 1.0 / 3.0, 2.0 / 3.0, 0.125, 0.375];
+    let (dlo, dhi) = (10.0 * sp, 1.8 * sp.sqrt());
+    for _ in 0..400 {
+        let base = crystal_unchecked(row.hall, rng, 1);
+        let basis = base.cell.lattice.basis;
+        let mut y = Vector3::new(rng.uniform(0.03, 0.97), rng.uniform(0.03, 0.97), rng.uniform(0.03, 0.97));
+        let j = *rng.pick(&free);
+        let step = (basis * lin.column(j)).norm();
+        if step < 1e-6 {
+            continue;
+        }
+        // target distance from the special value (Cartesian), half of the cluster distance in the simplest case
+        let delta = rng.uniform(0.6 * dlo, 0.5 * dhi);
+        y[j] = *rng.pick(&special) + delta / step * if rng.chance(0.5) { 1.0 } else { -1.0 };
+        let p = lin * y + space.1;
+        let mut orb: Vec<Vector3<f64>> = vec![];
+        for o in &ops {
+            let q = (o.rotation.map(|e| e as f64) * p + o.translation).map(|e| e.rem_euclid(1.0));
+            if !orb.iter().any(|z| frac_dist(&basis, z, &q) < 1e-9) {
+                orb.push(q);
+            }
+        }
+        if orb.len() != row.mult {
+            continue;
+        }
+        // pair distances: cluster pairs inside the window, all others well separated
+        let mut dmin = f64::INFINITY;
+        let mut ok = true;
+        'pairs: for a in 0..orb.len() {
+            for b in 0..a {
+                let d = frac_dist(&basis, &orb[a], &orb[b]);
+                if d < 0.45 {
+                    if d < dlo || d > dhi {
+                        ok = false;
+                        break 'pairs;
+                    }
+                    dmin = dmin.min(d);
+                }
+            }
+            for z in base.cell.positions.iter() {
+                if frac_dist(&basis, z, &orb[a]) < 0.45 {
+                    ok = false;
+                    break 'pairs;
+                }
+            }
+        }
+        if !ok || !dmin.is_finite() {
+            continue;
+        }
+        let mut pos = base.cell.positions.clone();
+        let mut nums = base.cell.numbers.clone();
+        let n1 = pos.len();
+        for q in orb.iter() {
+            pos.push(*q);
+            nums.push(2);
+        }
+        let n = pos.len();
+        let cell = Cell::new(Lattice { basis }, pos, nums);
+        if approx_symmetry_count(&cell, (dmin / 4.0).min(0.2)) != nops {
+            continue;
+        }
+        let mut truth = base.truth.clone();
+        truth.orbit_id = (0..n).map(|i| if i < n1 { 0 } else { 1 }).collect();
+        truth.wyckoff_row = (0..n).map(|i| if i < n1 { general_idx as i64 } else { row.idx as i64 }).collect();
+        truth.origin_atom = (0..n).collect();
+        truth.steps.push("near-special".into());
+        return Some(Crystal { cell, truth });
+    }
+    None
+}
+
 /// Generator mode "wyckoff" of `pipeline::gen_cases`.
 /// quick: every second table row (parity chosen by the seed, so two seeds cover the table), one
 /// re-described cell each, and the own conventional cell for every tenth of them;
@@ -299,6 +393,17 @@ pub fn gen_cases(thorough: bool, seed: u64, rng: &mut Rng, emit: &mut dyn FnMut(
             requested[h] = true;
             let cell = if r.idx % 3 == 0 { &base } else { &c };
             emit(format!("{}-hreq", name), cell, sp, AngleTolerance::Default, Setting::HallNumber(r.hall));
+        }
+        // the position with one free parameter close to a special value (atoms of the orbit cluster at 10 symprec ..
+        // 1.8 sqrt(symprec) from each other): quick: every sixth sliced row that has a free parameter, thorough: every second
+        if (r.idx / 2 + seed as usize) % (if thorough { 2 } else { 6 }) == 0 && r.mult <= 48 {
+            let mut nrng = rng.fork();
+            let spn = *nrng.pick(&[1e-4, 1e-3, 1e-2]);
+            if let Some(nc) = wyckoff_crystal_near(r, general[r.hall as usize], &mut nrng, spn) {
+                let lvl = nrng.range(0, 2) as u32;
+                let c3 = redescribe(&nc, &mut nrng, lvl, None);
+                emit(format!("{}-near", name), &c3, spn, AngleTolerance::Default, settings[r.idx % 2]);
+            }
         }
         if thorough {
             let sup = if base.cell.num_atoms() <= 64 && rng.chance(0.6) {
